@@ -409,4 +409,14 @@ theorem wfTextTape_iff (input : Bytes) (toks : List Tok) :
       have := hx t ht
       simp only [Slice.off] at this; omega
 
+/-- C06 (text half), first claim: the executable checker run by `wftext` is the predicate. -/
+theorem C06_text_checker_sound (input : Bytes) (toks : List Tok) :
+    wfTextTape input toks = true ↔ WfTextTape input toks :=
+  wfTextTape_iff input toks
+
+/-- `a={b}`: tokens U(a) A(3) U(b) E(1) over the 5 input bytes. -/
+example : WfTextTape [97, 61, 123, 98, 125]
+    [.unquoted ⟨5, [97]⟩, .array 3 false, .unquoted ⟨2, [98]⟩, .endTok 1] :=
+  (C06_text_checker_sound _ _).1 (by decide +kernel)
+
 end Jomini.TextTape
